@@ -247,8 +247,25 @@ theorem lookup_sub_none {proj : Project} {rank : List Nat} (wf : WFacts proj ran
       | indexError => rfl
       | crash => rfl
 
-/-- **`SubLookup` holds for `WFr` projects** (from `pkgFromOk` and `modNamesOk`) -/
+/-- `AboveLow` from the decidable clause `aboveOk` of `WFr` -/
+theorem aboveLow_of {proj : Project} {rank : List Nat} (hwf : WFr proj rank = true) : AboveLow proj rank := by
+  intro S b st t P hb hst htg hP ⟨q, hq, he⟩
+  have hp := allProj_spec (WFr.above hwf) hb hst
+  have h1 := List.all_eq_true.1 hp (some t) htg
+  simp only at h1
+  have h2 := List.all_eq_true.1 h1 P (List.mem_range.2 hP)
+  have hpre : isProperPrefix (pathOf proj P) (pathOf proj t) = true := by
+    unfold isProperPrefix
+    rw [he]
+    have hlen : 0 < q.length := List.length_pos_iff.2 hq
+    simp only [Bool.and_eq_true, decide_eq_true_eq, List.length_append]
+    exact ⟨List.isPrefixOf_iff_prefix.2 (List.prefix_append _ _), by omega⟩
+  simp only [hpre, Bool.not_true, Bool.false_or, Bool.or_eq_true, beq_iff_eq, decide_eq_true_eq] at h2
+  exact h2
+
+/-- **`SubLookup` holds for `WFr` projects** (from `pkgFromOk`, `modNamesOk` and `aboveOk`) -/
 theorem subLookup_of {proj : Project} {rank : List Nat} (hwf : WFr proj rank = true) : SubLookup proj rank := by
+  refine ⟨?_, aboveLow_of hwf⟩
   intro s hI S b lvl M n a t hb hst ht hpk t2 c hl hu
   obtain ⟨wf, rx⟩ := WFr.facts hwf
   have hp := allProj_spec (WFr.pkgFrom hwf) hb hst
@@ -259,7 +276,7 @@ theorem subLookup_of {proj : Project} {rank : List Nat} (hwf : WFr proj rank = t
   | some c' =>
     simp only [hm, decide_eq_true_eq] at hp
     have := (lookupModule_spec hI hl).2 c' hm
-    subst this; exact hp
+    subst this; exact ⟨hp, rfl⟩
   | none =>
     exfalso
     simp only [hm, Bool.and_eq_true, Bool.not_eq_true', List.all_eq_true, Bool.or_eq_true] at hp
